@@ -79,11 +79,11 @@ def expected_all(s, cell, lo, hi):
     """all hkl != 0 in the shell not extinguished by the group's own operations"""
     Gs = recip_metric(cell)
     R, t = ops_int(s)
-    # bound on indices from the smallest eigenvalue
-    w = np.linalg.eigvalsh(Gs)
-    hm = int(math.ceil(2 * hi / math.sqrt(w[0]))) + 1
+    # bound on each index by Cauchy-Schwarz in the reciprocal metric: |h_i| <= sqrt((G*^-1)_ii) sqrt(h G* h) = 2 hi a_i
+    Gi = np.linalg.inv(Gs)
+    hm = [int(math.ceil(2 * hi * math.sqrt(Gi[i, i]) * (1 + 1e-9))) + 1 for i in range(3)]
     out = []
-    for h in itertools.product(range(-hm, hm + 1), repeat=3):
+    for h in itertools.product(*[range(-m, m + 1) for m in hm]):
         if not any(h):
             continue
         v = 0.5 * math.sqrt(max(0.0, np.array(h).dot(Gs).dot(h)))
